@@ -48,6 +48,25 @@ theorem cimvalue_caught {P : PyExc → Prop} [Allows P] (v : PV) (ty : Option St
   intro e h
   rcases h with h | h <;> subst h <;> exact Or.inl (by decide)
 macro_rules | `(tactic| safe_leaf) => `(tactic| exact cimvalue_caught _ _ _)
+theorem unpackBoolStrs_safe {P : PyExc → Prop} [Allows P] (l : List (Option Str)) : Safe P (unpackBoolStrs l) := by
+  fun_induction unpackBoolStrs l <;> safe
+macro_rules | `(tactic| safe_leaf) => `(tactic| exact unpackBoolStrs_safe _)
+
+theorem cimvalue_safeC {P : PyExc → Prop} (v : PV) (ty : Option Str) :
+    Safe (Caught [.typeError, .valueError] P) (cimvalue C v ty) := by
+  refine Safe.mono ?_ (cimvalue_safe C v ty)
+  intro e h
+  rcases h with h | h <;> subst h <;> exact Or.inl (by decide)
+macro_rules | `(tactic| safe_leaf) => `(tactic| exact cimvalue_safeC _ _ _)
+
+/-- `xml_cimvalue` inside `try … except (TypeError, ValueError)`: the CIMXMLParseError of unpack_boolean
+    passes through, the ValueError / TypeError of cimvalue are converted -/
+theorem xmlCimvalue_caught {P : PyExc → Prop} [Allows P] (v : PV) (ty : Option Str) :
+    Safe P (catchVT (xmlCimvalue C v ty)) := by
+  apply Safe.catchVT
+  unfold xmlCimvalue
+  safe
+macro_rules | `(tactic| safe_leaf) => `(tactic| exact xmlCimvalue_caught _ _ _)
 end
 
 /-! ### documented classes -/
